@@ -140,6 +140,8 @@ def gen_case(rng, i):
               # filter uncertainty given as S sampled filter sets (3-D) instead of a standard deviation (2-D)
               "unc_samples": int(rng.integers(3, 8)) if (ek == "uncertainty" and rng.integers(3) == 0) else 0,
               "unc_seed": int(rng.integers(0, 2 ** 31 - 1)),
+              # sampling step of the spectra (the variance model is an integral over the domain as well)
+              "unc_dx": float([1.0, 0.5, 2.0, 3.7][rng.integers(4)]) if ek == "uncertainty" else 1.0,
               "l1kind": lk, "L1": None if lk == "none" else (float(np.sum(Xmid[0])) if lk == "scalar" else np.sum(Xmid, axis=1)),
               "l2_eps": float(10 ** rng.uniform(-4, -2)), "l1_eps": float(10 ** rng.uniform(-3, -1.5)),
               "solver": ["default", "clarabel"][rng.integers(2)]})
@@ -158,6 +160,8 @@ def chk_case(inp, c):
     for k in set(inp["classes"]):
         c.cell("target=" + k)
     filters, sources = gen.spectra_for_A(inp["A"])
+    dx = float(inp.get("unc_dx", 1.0)) if inp.get("_live_estimator") is None else 1.0
+    sources = sources / dx          # same capture matrix A on a domain with step dx
     kw0 = {}
     if inp["K"] is not None:
         kw0["K"] = inp["K"]
@@ -171,19 +175,20 @@ def chk_case(inp, c):
         S = int(inp["unc_samples"])
         fs = filters[None] * (1.0 + inp["sigma_rel"] * ur.normal(0, 1, (S,) + filters.shape)) + 0.01 * ur.random((S,) + filters.shape)
         kw0["filters_uncertainty"] = fs
-        w_dom = oracles.step_weights(filters.shape[1], 1.0, True)
+        w_dom = oracles.step_weights(filters.shape[1], dx, True)
         caps = np.array([oracles.capture_oracle(fs[k], sources, w_dom)[0] for k in range(S)])      # (S, n, m)
         Eps_model = np.var(caps, axis=0).T
     elif ek == "uncertainty":
         c.cell("uncertainty=std")
         sig = inp["sigma_rel"] * filters + 0.01 * (filters > 0)
         kw0["filters_uncertainty"] = sig
-        w_dom = oracles.step_weights(filters.shape[1], 1.0, True)
+        w_dom = oracles.step_weights(filters.shape[1], dx, True)
         Eor, _ = oracles.capture_oracle(sig ** 2, sources ** 2, w_dom)     # (n, m)
         Eps_model = Eor.T
     est = inp.get("_live_estimator")
     if est is None:
-        est = c.call(dreye.ReceptorEstimator, filters, domain=1.0, _where="ReceptorEstimator", **kw0)
+        c.cell("domain-step=" + ("1" if dx == 1.0 else "other"))
+        est = c.call(dreye.ReceptorEstimator, filters, domain=dx, _where="ReceptorEstimator", **kw0)
         c.call(est.register_system, sources, lb=inp["lb"], ub=inp["ub"], _where="register_system")
     if ek == "uncertainty":
         E = np.asarray(est.Epsilon)
